@@ -134,6 +134,7 @@ type Interp struct {
 	evalMemo       map[*Term]*Term
 	allVars        []*Term
 	NoModelGuide   bool
+	InitNotes      []string
 	HashUF         bool
 	factMap        map[string]bool
 	// speculation (merge.go)
@@ -476,6 +477,9 @@ func (in *Interp) decide(cond *Term) bool {
 		panic(&specAbort{"fork in region"})
 	}
 	in.symSeq++
+	if os.Getenv("GOSYM_DECLOG") != "" {
+		fmt.Fprintf(os.Stderr, "decide at %s: %s\n", in.where(), trunc160(cond.String()))
+	}
 	var d int
 	site := in.siteHash()
 	if in.pos < len(in.prefix) {
@@ -596,6 +600,13 @@ func (in *Interp) siteHash() int {
 	return (h ^ (bi * 7919)) & 0xffffff
 }
 
+func trunc160(s string) string {
+	if len(s) > 160 {
+		return s[:160]
+	}
+	return s
+}
+
 func (in *Interp) where() string {
 	if in.curFrame == nil {
 		return "?"
@@ -659,10 +670,6 @@ func (in *Interp) callSSA(fn *ssa.Function, args []V, env []V, caller *Frame) V 
 		}
 	}
 	if pk := fn.Package(); pk != nil && unmodelledPkg[pk.Pkg.Path()] {
-		switch name {
-		case "regexp.MustCompile", "regexp.MustCompilePOSIX":
-			return in.zero(fn.Signature.Results().At(0).Type())
-		}
 		if fn.Name() == "init" {
 			return nil
 		}
@@ -690,6 +697,12 @@ func (in *Interp) callSSA(fn *ssa.Function, args []V, env []V, caller *Frame) V 
 			return nil
 		}
 		in.initDone[fn.Pkg] = true
+		if caller != nil {
+			// best-effort initialisation of a dependency: a package whose
+			// initialiser needs an unmodelled facility (reflect, os, ...) keeps
+			// zero values for what was not initialised
+			return in.tolerantInit(fn, caller)
+		}
 	}
 	in.depth++
 	if in.depth > in.MaxDepth {
@@ -711,6 +724,34 @@ func (in *Interp) callSSA(fn *ssa.Function, args []V, env []V, caller *Frame) V 
 	for fr.block != nil {
 		in.runFrame(fr)
 	}
+	return fr.result
+}
+
+func (in *Interp) tolerantInit(fn *ssa.Function, caller *Frame) (res V) {
+	saved := in.curFrame
+	savedDepth := in.depth
+	defer func() {
+		if r := recover(); r != nil {
+			if pe, ok := r.(*pathEnd); ok && pe.Kind == "unsupported" {
+				in.InitNotes = append(in.InitNotes, fn.Pkg.Pkg.Path()+": "+pe.Msg)
+				in.curFrame = saved
+				in.depth = savedDepth
+				res = nil
+				return
+			}
+			panic(r)
+		}
+	}()
+	in.depth++
+	fi := in.info(fn)
+	fr := &Frame{fn: fn, info: fi, regs: make([]V, fi.n), caller: caller}
+	fr.block = fn.Blocks[0]
+	in.curFrame = fr
+	for fr.block != nil {
+		in.runFrame(fr)
+	}
+	in.curFrame = saved
+	in.depth--
 	return fr.result
 }
 
@@ -838,7 +879,7 @@ func (in *Interp) runDefer(fr *Frame, d deferred) {
 
 // unmodelledPkg lists packages whose code is never executed symbolically.
 var unmodelledPkg = map[string]bool{
-	"regexp": true, "regexp/syntax": true, "os/exec": true, "net": true, "plugin": true,
+	"os/exec": true, "net": true, "plugin": true,
 	"reflect": true, "os/signal": true, "net/http": true, "os/user": true, "io/ioutil": true,
 }
 
